@@ -162,3 +162,25 @@ Example mol_graph_roundtrip_mapped_ex :
   node_ids (mol_to_graph ex_mapped true true) = [5%N; 2%N] /\
   graph_to_mol (mol_to_graph ex_mapped true true) = Some (map atom_back (fst ex_mapped), [(0%N, 1%N, 2)]).
 Proof. vm_compute. repeat split. Qed.
+
+(** ** the reaction path under the two RDKit contracts (as C10_smiles_roundtrip_under_rdkit_contract for the default flags) *)
+Theorem rsmi_side_roundtrip_under_contract
+  (Smi : Type) (read : Smi -> option rmol) (write : list watom * list (N * N * Z) -> option Smi) (canon : Smi -> Smi) :
+  (forall s m, read s = Some m -> rdmol_ok m = true /\ forallb mapped (fst m) = true) ->
+  (forall s m bonds', read s = Some m -> (forall i j, bond_find i j bonds' = bond_find i j (snd m)) ->
+                      write (map atom_back (fst m), bonds') = Some (canon s)) ->
+  forall s m, read s = Some m ->
+    match graph_to_mol (mol_to_graph m true true) with Some w => write w | None => None end = Some (canon s).
+Proof.
+  intros C1 C2 s m R. destruct (C1 s m R) as [Hok Hfull]. destruct (mol_graph_roundtrip_mapped m Hok Hfull) as (bonds' & E & Hb).
+  rewrite E. apply (C2 s m bonds' R). intros i j. rewrite Hb. destruct (bond_find i j (snd m)) as [o|] eqn:F; [|reflexivity].
+  simpl. destruct (bond_find_in_list i j _ o F) as (b & e & Hin).
+  unfold rdmol_ok in Hok. rewrite !andb_true_iff in Hok. destruct Hok as [[_ H3] _]. rewrite forallb_forall in H3. specialize (H3 _ Hin).
+  simpl in H3. unfold okord in H3. rewrite !orb_true_iff, !Z.eqb_eq in H3. f_equal. destruct H3 as [[[-> | ->] | ->] | ->]; reflexivity.
+Qed.
+Example rsmi_side_contract_ex :
+  let read := fun _ : unit => Some ex_mapped in
+  let write := fun _ : list watom * list (N * N * Z) => Some tt in
+  (forall s m, read s = Some m -> rdmol_ok m = true /\ forallb mapped (fst m) = true) /\
+  match graph_to_mol (mol_to_graph ex_mapped true true) with Some w => write w | None => None end = Some tt.
+Proof. cbv zeta. split; [intros s m [= <-]; split; reflexivity|vm_compute; reflexivity]. Qed.
